@@ -12,7 +12,8 @@
  * Scalars are always initialised with EC_CURVE_CALC_BITS_DBL(curve) like every caller in ecdsa.h does.
  *   cfg                                   -> cfg digit=64 proj=1 mix=1 rdbl=1 fxp=4 fxpw=9 unk=3 unkw=2 twin=3 ...
  *   curves                                -> curves <name> <name> ...            (built-in table, in table order)
- *   curve <name>                          -> curve rc=0 m=.. p=.. a=.. b=.. gx=.. gy=.. n=.. h=.. flags=.. validate=..
+ *   curve <name>                          -> curve rc=0 m=.. p=.. a=.. b=.. gx=.. gy=.. n=.. h=.. flags=..    (ecdsa_curve_from_str)
+ *   validate <name>                       -> ok <rc> <warnings>                 ec_curve_validate
  *   add|sub <name> <cap> <P> <Q>...       -> ok <P+Q> ...      ec_point_add / ec_point_sub on distinct objects
  *   dbl <name> <cap> <P>...               -> ok <2P> ...       ec_point_add(&a, &a)   (aliased operands)
  *   dbln <name> <cap> a|p <j> <P>...      -> ok <2^j P> ...    ec_point_affine_dbl_n / ec_point_proj_dbl_n
@@ -186,21 +187,26 @@ int main(void) {
 		int crc = 0;
 		ec_curve_p cv = get_curve(tok[1], &crc);
 		if (!strcmp(op, "curve")) {
-			int w = -1, vrc = -99;
 			printf("curve rc=%d", crc);
 			if (crc == 0) {
-				vrc = ec_curve_validate(cv, &w);
 				printf(" m=%zu t=%zu p=", cv->m, cv->t); bn_put_hex(&cv->p);
 				printf(" a="); bn_put_hex(&cv->a); printf(" b="); bn_put_hex(&cv->b);
 				printf(" gx="); bn_put_hex(&cv->G.x); printf(" gy="); bn_put_hex(&cv->G.y);
 				printf(" n="); bn_put_hex(&cv->n);
-				printf(" h=%u flags=%u ginf=%d validate=%d warnings=%d", cv->h, cv->flags, cv->G.infinity, vrc, w);
+				printf(" h=%u flags=%u ginf=%d", cv->h, cv->flags, cv->G.infinity);
 			}
 			printf("\n");
 			continue;
 		}
 		if (crc != 0) { printf("ok curve-err%d\n", crc); continue; }
 		size_t dbl_bits = EC_CURVE_CALC_BITS_DBL(cv);
+		if (!strcmp(op, "validate")) {
+			int w = -1, vrc;
+			dirty_stack();
+			vrc = ec_curve_validate(cv, &w);
+			printf("ok %d %d\n", vrc, w);
+			continue;
+		}
 		if (!strcmp(op, "chk")) {
 			printf("ok");
 			for (i = 2; i < nt; i++) {
